@@ -173,6 +173,79 @@ theorem succIdx_sub (lens comb : List Nat) : ∀ t ∈ succIdx lens comb comb.le
   obtain ⟨t', ht', rfl⟩ := succIdx_aux lens comb.length 0 [] comb rfl (by simp) t (by simpa using h)
   simpa using ht'
 
+/-! ### the frontier of one derivation queue never holds an index tuple twice -/
+
+/-- the index tuples of one derivation queue: `F` pushed and not yet expanded, `D` expanded -/
+structure Front where
+  F : List (List Nat)
+  D : List (List Nat)
+
+/-- no tuple twice (frontier and expanded together), and every non-zero tuple was generated by its
+    predecessor, which has been expanded -/
+def FrontInv (a : Front) : Prop :=
+  (a.F ++ a.D).Nodup ∧ ∀ t ∈ a.F ++ a.D, nonzero t = true → parent t ∈ a.D
+
+/-- one expansion, as `query_derivation` does it for a popped index tuple `c`: `c` leaves the frontier and
+    pairwise distinct successors of `c` (ALL of `succs c`, or fewer when cost lists end: `succIdx`) enter it -/
+inductive Front.Step : Front → Front → Prop
+  | expand (F1 F2 D : List (List Nat)) (c : List Nat) (new : List (List Nat)) : new.Nodup → (∀ t ∈ new, t ∈ succs c) →
+      Front.Step ⟨F1 ++ c :: F2, D⟩ ⟨F1 ++ F2 ++ new, c :: D⟩
+
+inductive Front.Reach : Front → Front → Prop
+  | refl (a : Front) : Front.Reach a a
+  | step {a b c : Front} : Front.Reach a b → Front.Step b c → Front.Reach a c
+
+theorem front_init (n : Nat) : FrontInv ⟨[List.replicate n 0], []⟩ := by
+  refine ⟨by simp, ?_⟩
+  intro t ht hnz
+  simp only [List.append_nil, List.mem_singleton] at ht
+  subst ht
+  simp [nonzero] at hnz
+
+theorem front_step {a b : Front} (ha : FrontInv a) (h : Front.Step a b) : FrontInv b := by
+  cases h with
+  | expand F1 F2 D c new hnd hsub =>
+    obtain ⟨h1, h2⟩ := ha
+    simp only at h1 h2
+    have hcF : c ∈ F1 ++ c :: F2 := by simp
+    have hcD : c ∉ D := by
+      intro hc
+      have := (List.nodup_append.mp h1).2.2 c hcF c hc
+      exact this rfl
+    have hnew : ∀ t ∈ new, t ∉ (F1 ++ c :: F2) ++ D := by
+      intro t ht hmem
+      obtain ⟨hnz, hp⟩ := (mem_succs_iff c t).mp (hsub t ht)
+      have := h2 t hmem hnz
+      rw [hp] at this
+      exact hcD this
+    have hperm : ((F1 ++ F2 ++ new) ++ c :: D).Perm (new ++ ((F1 ++ c :: F2) ++ D)) := by
+      have e1 : ((F1 ++ F2 ++ new) ++ c :: D).Perm (new ++ (F1 ++ F2) ++ c :: D) :=
+        List.Perm.append_right _ List.perm_append_comm
+      refine e1.trans ?_
+      simp only [List.append_assoc]
+      refine List.Perm.append_left new ?_
+      refine List.Perm.append_left F1 ?_
+      exact (List.perm_middle (a := c) (l₁ := F2) (l₂ := D))
+    refine ⟨?_, ?_⟩
+    · show ((F1 ++ F2 ++ new) ++ c :: D).Nodup
+      rw [hperm.nodup_iff, List.nodup_append]
+      exact ⟨hnd, h1, fun x hx y hy hxy => hnew x hx (hxy ▸ hy)⟩
+    · intro t ht hnz
+      show parent t ∈ c :: D
+      have ht' := hperm.mem_iff.mp ht
+      rcases List.mem_append.mp ht' with h3 | h3
+      · rw [((mem_succs_iff c t).mp (hsub t h3)).2]; exact List.mem_cons_self
+      · exact List.mem_cons_of_mem _ (h2 t h3 hnz)
+
+/-- **along every sequence of expansions from the initial frontier `(0,…,0)`, whatever the order of the pops and
+    whatever the lengths of the cost lists at each expansion, no index tuple is ever generated twice** -/
+theorem front_reach_nodup (n : Nat) (b : Front) (h : Front.Reach ⟨[List.replicate n 0], []⟩ b) : (b.F ++ b.D).Nodup := by
+  have : FrontInv b := by
+    induction h with
+    | refl => exact front_init n
+    | step _ hs ih => exact front_step ih hs
+  exact this.1
+
 /-! ### the successor loop of the machine pushes exactly `succIdx` -/
 
 /-- `len(self._cost_lists_nt[args[i]])` for every argument position -/
